@@ -54,6 +54,9 @@ def _runtime_fail(r):
                       'map([1, 2], v => {u})', 'filter([1], v => v == {u})', 'reduce([1, 2], (a, b) => a + {u})', 'sorted([2, 1], v => {u})',
                       'f = v => {u} + v; f(1)', 'True and {u}', 'False or {u}', 'x += {u}', 'd["a"] += {u}', 'push(l, {u})'])
         src = e.format(u=u)
+        if not u.startswith('%') and r.random() < 0.25:
+            # the undefined name was a lambda parameter a moment ago (its binding vanished when the call returned)
+            src = r.choice(['g9 = {u} => {u} + 1; g9(1); ', 'map([1, 2], {u} => {u}); ', 'g9 = ({u}, w9) => w9\ng9(1, 2)\n']).format(u=u) + u
     elif k == 'undefined_variable_compound':
         src = r.choice(['{u} += 1', '{u} -= 1', '{u} *= 2', '{u} /= 2', 'x = 1; {u} += x', 'map([1], v => 1); {u} += 1']).format(u=u)
     elif k == 'undefined_function':
@@ -61,7 +64,7 @@ def _runtime_fail(r):
         src = r.choice(['{f}(1)', '{f}()', '1 | {f}', '(1).{f}()', 'l.{f}(2)', 'l | {f}(2)', 'x = {f}(l)', '[{f}(1)]', 'map(l, v => {f}(v))',
                         '1 + {f}(2)', 'len({f}(1))', 'd["k"] = {f}()']).format(f=fn)
     elif k == 'missing_key':
-        src = r.choice(['mp["zz"]', 'cm["zz"]', 'ud["zz"]', 'x = ud[5]', 'd["zz"]', 'd[5]', 'd[None]', 'x = d["zz"]', 'd["a"]["zz"]', 'len(d["zz"])', 'map(l, v => d[v])', 'd[1.0]', '{}["a"]', '{"a": 1}["b"]'])
+        src = r.choice(['hk["zz"]', 'hk[7]', 'dict(enumerate(l))["zz"]', 'dict([[1, "a"]])[5]', 'mp["zz"]', 'cm["zz"]', 'ud["zz"]', 'x = ud[5]', 'd["zz"]', 'd[5]', 'd[None]', 'x = d["zz"]', 'd["a"]["zz"]', 'len(d["zz"])', 'map(l, v => d[v])', 'd[1.0]', '{}["a"]', '{"a": 1}["b"]'])
     elif k == 'index_out_of_range':
         src = r.choice(['tp[5]', 'tp[-3]', 'l[9]', 'l[-9]', 'l[3]', 'x = l[99]', '[][0]', 's[99]', 'l[0][5]' if False else 'n[0][5]', 'map([7], v => l[v])', 'l[2.0 + 1]', '[1, 2][2]'])
     elif k == 'pop_empty':
@@ -137,7 +140,7 @@ def _names(with_big=False):
     import types
     n = {'l': [1, 2, 3], 'd': {'a': {'b': 1}, 'k': 2}, 's': 'abc', 'x': 5, 'e': [], 'n': [[1, 2], [3]],
          'mp': types.MappingProxyType({'a': 1}), 'cm': collections.ChainMap({'a': 1}, {'b': 2}), 'ud': collections.UserDict({'a': 1}),
-         'tp': (1, 2)}
+         'tp': (1, 2), 'hk': {1: 10, 2.5: 'x', None: 0, 'a': 1}}
     if with_big:
         n['big'] = list(range(10000))
         n['bigd'] = {str(i): i for i in range(10000)}
